@@ -57,6 +57,14 @@ class Contract:
         if isinstance(sig, (list, tuple)):
             args = {}
             pos = list(pos)
+            names = [p if isinstance(p, str) else p[0] for p in sig]
+            if pos and isinstance(pos[-1], tuple) and pos[-1][0] == '*':
+                from .state import Unsupported
+                raise Unsupported('starred arguments to the synthetic contract %s' % self.qual)
+            if len(pos) > len(sig) or any(k not in names for k in kw if k != '**') or kw.get('**') is not None:
+                return None, 'TypeError'        # surplus positional or unknown keyword arguments
+            if any(k in names[:len(pos)] for k in kw):
+                return None, 'TypeError'        # a parameter given twice
             for i, p in enumerate(sig):
                 name, has_d, d = (p, False, None) if isinstance(p, str) else (p[0], True, p[1])
                 if i < len(pos):
